@@ -1,4 +1,5 @@
 import EmmetProofs.ConvCount
+import EmmetProofs.Numbering
 /-! # C02 — `X*N` makes exactly N copies (count clause; theorem on the converter model) -/
 namespace EmmetProps
 open T
@@ -10,6 +11,18 @@ is decreased by exactly that number and nothing else in the state changes. -/
 theorem C02_count (sk : SK) (fuel : Nat) (st : CState) (hf : sk.need ≤ fuel) (ht : st.text = .none)
     (hg : (sk.cost : Int) < st.guard) :
     convertList fuel sk.toT st = .ok (sk.unroll, withGuard st (st.guard - sk.cost)) := T.listOK sk fuel st hf ht hg
+
+/-- numbering: a `$`-run of width `size` (with `@base` / `@-base`, no `^`) is replaced by the documented number of the nearest
+repeater — `base + i` for copy `i` (0-based; the statement's `i` is 1-based), `base + N - 1 - i` when counting down so that the
+last copy gets `base`, and 1 outside every repeater — zero-padded to `size` digits. Together with `C02_count` (copy `i` carries
+value `i` and count `N`) this is the numbering clause. -/
+theorem C02_numbering (t : Tok) (st : CState) (size : Nat) (reverse : Bool) (base : Nat)
+    (h : t.tok = .repeaterNumber size reverse base 0) :
+    stringifyTok t st = .ok (some (padded size (documentedNumber (counterOf st) reverse base)), st) :=
+  T.stringify_number t st size reverse base h
+
+theorem C02_countdown_last (r : Rep) (base : Nat) (h : r.value + 1 = r.count) :
+    documentedNumber (some r) true base = base := T.documentedNumber_last_reverse r base h
 
 /-- non-vacuity: `x*3` unrolls to three copies -/
 example : (SK.elem [120] (some 3) .nil .nil).unroll.length = 3 ∧ (SK.elem [120] (some 3) .nil .nil).cost = 3 := by decide
